@@ -339,6 +339,19 @@ Theorem revert_pinned_refuted_child_only :
   exists f t f', th_revert f t = Some f' /\ th_revert_pinned f t = None /\ tcur_bs f' = [b_child seg1].
 Proof. exists f37_file, 0. eexists. repeat split; reflexivity. Qed.
 
+(* F42: with the pinned back link the walk from the first footer of a new file never ends
+   (whatever the fuel, it is used up) - where the repaired code, and the specification, say nil *)
+Theorem new_file_walk_pinned_never_ends_F42 f b n :
+  fn_any_segs n = true ->
+  forall fuel, th_walk fuel (th_round_newfile_pinned f b n) 0 = repeat 0 fuel.
+Proof.
+  intros Hs. induction fuel as [|k IH]; [reflexivity|].
+  simpl. unfold th_previous. simpl. rewrite Hs. simpl. f_equal. exact IH.
+Qed.
+
+Theorem new_file_walk_is_nil f b n fuel : th_walk fuel (th_round TKNewFile f b n) 0 = [].
+Proof. destruct fuel; [reflexivity|]. simpl. unfold th_previous. simpl. now destruct (fn_any_segs n). Qed.
+
 (* non-vacuity of the main theorem: a history with child-only rounds, a compaction, a revert *)
 Example walk_is_history_applies :
   let evs := [ERound TKAppend (b_child seg1) child_only_1;
